@@ -94,7 +94,12 @@ def evaluate(node):
             v = eval(code, {'__builtins__': {}}, {})
     except BaseException as e:
         return ('raises', type(e).__name__)
-    return ('value', type(v).__name__, repr(v))
+    try:
+        r = repr(v)
+    except ValueError:
+        # int/str conversion limit: identify the value by its hexadecimal form instead
+        r = hex(v)
+    return ('value', type(v).__name__, r)
 
 
 def is_nan_outcome(o):
